@@ -724,19 +724,27 @@ class Gen:
         """a huge (or boundary, or negative) value in a count / size / alignment / address position, alone and nested"""
         r = self.r
         v, w = r.choice(HUGE), r.choice(HUGE)
-        body = r.choice(["", "", " nop ", " .byte 1 ", " .word . ", " .even ", f" .blkb {w} ", f" .align {w} "])
+        body = r.choice(["", "", " nop ", " .byte 1 ", " .word . ", " .even ", f" .blkb {w} ", " .align 4 ", " .odd "])
+        pre = ""
+        if any(k in body for k in (".even", ".align", ".odd")):
+            # address-dependent size inside a '.repeat': before the link base is known this is the known finding
+            # deferred-repeat-quadratic; keep that shape at <= 600 repetitions here, or fix the base first
+            if self.p(0.6):
+                pre = r.choice([".link 1000\n", ". = 2000\n", ".link 1001\n"])
+            else:
+                v, w = r.choice(["600.", "400.", "100.", "3", "0"]), r.choice(["2", "1", "600."])
         T = [f".align {v}", f".blkb {v}", f".blkw {v}", f".repeat {v} {{{body}}}", f".repeat {v} {{\n.repeat {w} {{{body}}}\n}}",
              f".repeat {v} {{\n.repeat {w} {{\n.repeat {v} {{ }}\n}}\n}}", f". = {v}", f".link {v}", f".link 1000\n. = {v}", f".link {v}\n.blkb {w}",
              f".blkb {v}\n.blkb {w}", f".blkw {v}\n.align {w}", f".byte 1\n.align {v}\n.word 2", f"x = {v}\n.blkb x\n.align x\n.repeat x {{ }}",
              f".blkb x\n.repeat x {{ }}\nx = {v}", f".repeat x {{\n.repeat x {{ }}\n}}\nx = {v}", f".align x\nx = {v}", f". = . + {v}", f".link 1000\n. = . + {v}\n. = . + {w}",
              f".word {v}", f".byte {v}", f".dword {v}", f".ascii <{v}>", f".rad50 <{v}>", f"mov #{v}, r0", f"mov {v}(r1), r0", f"emt {v}", f"br . + {v}", f"sob r0, . - {v}",
-             f".repeat 177777 {{\n.repeat 177777 {{{body}}}\n}}", f".repeat 400 {{\n.repeat 400 {{ }}\n}}", f".repeat 2 {{\n.repeat {v} {{ }}\n}}\n.repeat {w} {{ }}"]
+             ".repeat 177777 {\n.repeat 177777 {" + r.choice(["", " ", " nop ", f" .blkb {w} "]) + "}\n}", f".repeat 400 {{\n.repeat 400 {{ }}\n}}", f".repeat 2 {{\n.repeat {v} {{ }}\n}}\n.repeat {w} {{ }}"]
         if self.p(0.08):
             # inserted files as the size: two blobs that together pass 64 K
             self.fs["big1.bin"] = bytes(40000)
             self.fs["big2.bin"] = bytes(30000)
             return 'insert_file "big1.bin"\ninsert_file "big2.bin"\n' + r.choice(["", "make_bin", ".repeat 3 { insert_file \"big1.bin\" }"])
-        return r.choice(T)
+        return pre + r.choice(T)
 
     def include_graph(self):
         """include graphs with cycles (self, 2- and 3-cycles, with and without .once, through './' spellings) and deep chains"""
@@ -979,7 +987,7 @@ class Gen:
         elif kind == "dag-chain":
             # DAG-shaped definitions: each uses the previous symbol (defined later in the text) two or more times, so any evaluation
             # strategy that does not share work is exponential in the length; values stay small (x0 in {0, 1, -1})
-            n = r.choice([20, 25, 30, 40, 50, 60])
+            n = r.choice([20, 25, 30, 40, 50, 60, 60, 100, 300])
             forms = ["{a}*{a}", "{a} * {a} * {a}", "{a}+{a}", "{a} - {a} + {a}", "({a}+1)*({a}-1)", "{a}*{a}/1", "<{a}>*<{a}>", "{a}*{a} % 7", "-{a}*-{a}", "{a}*{b}",
                      "({a} & {a}) | {a}", "{a} _ 0 + {a}", "{a}*{a} + {b}*{b}", "~{a} & {a}", "{a}/{a}*{a}", "{a}*{a} ! {b}"]
             x0 = r.choice(['1', '0', '-1', '0', '. - . + 1'])
